@@ -686,6 +686,13 @@ func (in *Interp) formatDecimal(fr *frame, v *Term, signed bool) Str {
 		}
 		return Str{S: strconv.FormatUint(v.Uint(), 10)}
 	}
+	// a choice among constants (e.g. a counter read from a map under a symbolic key): resolve it
+	if v.Op == OIte && (v.A[1].IsConst() || v.A[2].IsConst()) {
+		if in.branch(v.A[0], nil) {
+			return in.formatDecimal(fr, v.A[1], signed)
+		}
+		return in.formatDecimal(fr, v.A[2], signed)
+	}
 	w := int(v.S.W)
 	if w < 64 {
 		if signed {
